@@ -7,6 +7,11 @@ From MP Require Import Model.PyString.
 From MP Require Import Model.Evaluate.
 From MP Require Import Spec.Recommend.
 
+(** compact literal: evaluation reads only id, name, content, attributes *)
+Definition mk (id name : pystr) (content : option pystr) (attrs : list (pystr * pystr)) (kids : list ftree) : ftree :=
+  FT {| n_id := id; n_name := name; n_content := content; n_tail := None; n_prefix := None;
+        n_attrs := attrs; n_extras := []; n_nsmap := [] |} kids.
+
 Record ecase := {
   ec_parent : option pystr;            (* root.parent.name of the evaluated (sub)tree *)
   ec_tree : ftree;
